@@ -25,7 +25,22 @@ def main():
                 continue
             seen.add(msg)
             hit = None
-            for sc in ({'scalar:a': '1', 'scalar:b': '1', 'scalar:c': '1'}, {'scalar:a': '2', 'scalar:b': '3', 'scalar:c': '5'},
+            # byte-pattern features of the solver's counterexample coordinates (leading / trailing zero bytes), searched for on real points
+            feats = []
+            try:
+                dr = driver.model_draws(r.state, r.info['model']) if r.status == 'assert' else {}
+                lead = trail = 0
+                for k, v in dr.items():
+                    if 'coord' in k and str(v).isdigit() and int(v) > 0:
+                        b = int(v).to_bytes(32, 'big')
+                        lead = max(lead, min(2, len(b) - len(b.lstrip(b'\0'))))
+                        trail = max(trail, min(2, len(b) - len(b.rstrip(b'\0'))))
+                for l_, t_ in ((lead, trail), (0, trail), (lead, 0), (0, 1), (1, 0)):
+                    if (l_ or t_) and (l_, t_) not in feats:
+                        feats.append((l_, t_))
+            except Exception:  # noqa
+                pass
+            for sc in tuple({'scalar:a': '1', 'scalar:b': '1', 'scalar:c': '1', 'feat:lead': str(l_), 'feat:trail': str(t_)} for l_, t_ in feats) + ({'scalar:a': '1', 'scalar:b': '1', 'scalar:c': '1'}, {'scalar:a': '2', 'scalar:b': '3', 'scalar:c': '5'},
                        {'scalar:a': '1', 'scalar:b': '123456789', 'scalar:c': '2'}, {'scalar:a': '987654321987654321', 'scalar:b': '5', 'scalar:c': '1'}):
                 failed, panicked, out = driver.replay_native('prover', 'prover', HARNESS, e, sc)
                 if (r.status == 'assert' and msg in failed) or (r.status == 'panic' and panicked):
